@@ -163,14 +163,69 @@ def batch(ctx, n, salt, sl):
             sl.sample({"spec": d, "objective": kind})
 
 
+NAN_SAFE = ["sea", "seax", "ga", "adapt", "de", "ded", "shade"]
+
+
+def nan_batch(ctx, n, salt, sl):
+    """objectives with NaN holes: comparing NaN individuals consumes the stdlib generator
+    (`worse_than` -> random.choice), so any accessor that dumping calls behind the scenes shows up
+    as a changed global generator state.  Only the generator states around dump / load are
+    compared here (snapshots containing NaN are not comparable by equality)."""
+    import pyhms.tree as T
+    from pyhms.config import TreeConfig
+
+    rng = ctx.rng(salt)
+    for i in range(n):
+        nlev = int(rng.choice([1, 2, 2]))
+        spec = R.rand_spec(rng, objective="holes", nlev=nlev, engines={l: NAN_SAFE for l in range(3)}, max_steps=int(rng.integers(3, 7)), gsc={"kind": "MetaepochLimit", "limit": 7})
+        if i % 2:
+            spec["nan_slab"] = (0.15, 0.85)  # most of the box: whole stretches of a history are NaN
+        o = R.build(spec, None, plain="callable")
+        opts = {"random_seed": spec["seed"], "hibernation": spec["hibernation"]}
+        fd, fn = tempfile.mkstemp(suffix=".pkl")
+        os.close(fd)
+        try:
+            tree = T.DemeTree(TreeConfig(o["levels"], o["gsc"], o["sm"], options=opts, config_class_to_deme_class=o["custom"]))
+            for k in range(spec["max_steps"] + 1):
+                if k > 0:
+                    if tree._gsc(tree):
+                        break
+                    tree.run_step()
+                n_nan = sum(1 for _, d in tree.all_demes for ind in d.all_individuals if ind.fitness != ind.fitness)
+                st_np = np.random.get_state()[1].copy()
+                st_py = random.getstate()
+                tree.pickle_dump(fn)
+                changed_dump = (not (np.random.get_state()[1] == st_np).all()) or random.getstate() != st_py
+                T.DemeTree.pickle_load(fn)
+                changed_load = (not (np.random.get_state()[1] == st_np).all()) or random.getstate() != st_py
+                sl.cases += 1
+                sl.count("nan-individuals:" + ("0" if n_nan == 0 else "1" if n_nan == 1 else "2+"))
+                if n_nan >= 2:
+                    sl.nontrivial.add((R.spec_id(spec), k))
+                if changed_dump or changed_load:
+                    sl.violations.append({"signature": "C19/dump-changed-random-state", "detail": f"objective with NaN holes, boundary {k} ({n_nan} NaN individuals in the tree): {'pickle_dump' if changed_dump else 'pickle_load'} changed a global random generator state", "replay": {"spec": spec, "boundary": k, "objective_kind": "callable"}})
+                    break
+        except Exception as e:
+            import traceback
+
+            sl.violations.append({"signature": "C19/run-crashed", "detail": f"NaN-hole objective: {type(e).__name__}: {e} {traceback.format_exc()[-400:]}", "replay": {"spec": spec}})
+        finally:
+            if os.path.exists(fn):
+                os.remove(fn)
+
+
 def run(ctx):
     sl = Slice("pickle_dump/pickle_load-at-every-boundary")
     sl.is_trace = True
     batch(ctx, ctx.size(60, 800), 3, sl)
-    return [sl]
+    sl2 = Slice("dump/load-leave-global-generators-alone(objective-with-NaN-holes)")
+    sl2.is_trace = True
+    nan_batch(ctx, ctx.size(25, 300), 5, sl2)
+    return [sl, sl2]
 
 
 def search(ctx, broken):
     sl = Slice("search")
     batch(ctx, 200, 93, sl)
+    nan_batch(ctx, 80, 95, sl)
     return sl.violations
